@@ -216,6 +216,13 @@ fn main() {
         harness_error(&format!("entropy seam self-test failed: {}", e));
     }
     sut::force_statics();
+    if a.cmd == "xmlgen" {
+        // cross-check corpus for the XML scanner: `cteepbd-sim xmlgen <dir> --runs N`
+        let dir = PathBuf::from(&a.prop);
+        let n = a.runs.unwrap_or(2000);
+        xmlgen(&dir, n, a.seed);
+        std::process::exit(0);
+    }
     let code = match a.prop.as_str() {
         "C05" => dispatch(&props::c05::C05, &a),
         "C06" => dispatch(&props::c06::C06, &a),
@@ -226,4 +233,75 @@ fn main() {
         other => harness_error(&format!("property {} has no check in this simulator", other)),
     };
     std::process::exit(code);
+}
+
+/// Writes N XML documents (real `to_xml` outputs of generated buildings and randomly damaged copies)
+/// to `dir/<i>.xml` and the scanner's verdicts to `dir/verdicts.txt` (`<i> ok|bad <reason>`), for
+/// comparison with an independent parser (tools/xml_crosscheck.py uses Python's expat).
+fn xmlgen(dir: &std::path::Path, n: u64, seed: u64) {
+    use cteepbd::AsCteXml;
+    std::fs::create_dir_all(dir).expect("xmlgen dir");
+    let mut verdicts = String::new();
+    let damage: [&str; 24] = ["<", ">", "&", "\"", "'", "]]>", "<!--", "-->", "--", "\u{1}", "\u{b}", "\u{ffff}", "</x>", "<x>", "<x/>", "&amp;", "&#1;", "&#x41;", "&#xD800;", "&foo;", "<?pi?>", "<![CDATA[a<b]]>", " ", "\u{feff}"];
+    let mut i = 0u64;
+    let mut idx = 0u64;
+    while i < n {
+        let mut w = rng::Rng::new(rng::mix(&[seed, 0x584d4c, idx]));
+        idx += 1;
+        let mut p = gen::gen_profile(&mut w, gen::Focus::Output, false);
+        p.f_hostile_text = true;
+        p.f_comments = true;
+        p.f_control_chars = w.chance(0.2);
+        p.steps = 2;
+        let b = gen::gen_building(&mut w, &p);
+        let text = model::render(&b, &model::Layout::plain());
+        let cfg = model::EvalCfg::default_loc();
+        let xml = match entropy::in_thread(idx, move || sut::evaluate(&text, &cfg)) {
+            Ok(Ok((_, ep))) => ep.to_xml(),
+            _ => continue,
+        };
+        for variant in 0..4 {
+            let mut doc = xml.clone();
+            if variant > 0 {
+                // 1..3 random damages at char boundaries
+                for _ in 0..variant {
+                    let mut pos = w.usize(doc.len() + 1);
+                    while !doc.is_char_boundary(pos) {
+                        pos -= 1;
+                    }
+                    match w.below(3) {
+                        0 => doc.insert_str(pos, damage[w.usize(damage.len())]),
+                        1 => {
+                            if pos < doc.len() {
+                                let mut end = pos + 1;
+                                while !doc.is_char_boundary(end) {
+                                    end += 1;
+                                }
+                                doc.replace_range(pos..end, "");
+                            }
+                        }
+                        _ => {
+                            // truncate
+                            if w.chance(0.2) {
+                                doc.truncate(pos);
+                            } else {
+                                doc.insert_str(pos, damage[w.usize(damage.len())]);
+                            }
+                        }
+                    }
+                }
+            }
+            std::fs::write(dir.join(format!("{}.xml", i)), doc.as_bytes()).expect("write xml");
+            match xmlcheck::check(&doc) {
+                Ok(_) => verdicts.push_str(&format!("{} ok\n", i)),
+                Err(e) => verdicts.push_str(&format!("{} bad {} @{}\n", i, e.what.replace('\n', " "), e.pos)),
+            }
+            i += 1;
+            if i >= n {
+                break;
+            }
+        }
+    }
+    std::fs::write(dir.join("verdicts.txt"), verdicts).expect("write verdicts");
+    say!("xmlgen: {} documents in {}", i, dir.display());
 }
